@@ -42,14 +42,14 @@ CLAIMS = {
              "the demodulator may push any number of the frame's next bytes before EVERY SPI transfer (hence also between the transfers of a "
              "running handler) as long as the FIFO does not fill up (the property's hypothesis), PayloadReady raised at any moment after the "
              "last byte - also inside a running handler - with CrcOk per CRC outcome, flag bits consistent with the FIFO at the moment of the "
-             "read, PayloadReady cleared when the FIFO becomes empty, anything inside the callback; fault-free bus (failures: C11). Theorems, "
+             "read, PayloadReady cleared when the FIFO becomes empty, anything inside the callback; any transfer may fail without effect on the chip (only the handler's recovery write is assumed to succeed). Theorems, "
              "for every buffer size, both packet formats, with and without address byte, every payload that fits, every CRC setting/outcome: "
              "header_spec (configuration registers, length byte, address byte), batch_level (the FIFO-level path takes the header and full "
              "batches only, stores them at the right offset, never takes the packet's last byte, never reads an empty FIFO), drain_spec / "
              "batch_ready (the payload-ready path takes exactly what is left; the byte-wise loop by induction on the fuel), rx_invocation "
              "(one handler invocation, whatever the flags - spurious ones included: still receiving, or delivered: callback exactly once "
              "with exactly the payload and its length and only with a good CRC, or dropped for CRC: no callback, FIFO flushed; in both cases "
-             "the per-packet state is zero again), C03_session (induction over any number of invocations), rx_start (the reset state is the "
+             "the per-packet state is zero again; a failing transfer either changes nothing that cannot be repeated or, while the complete packet is read, drops it the same way - it never delivers it), C03_session (induction over any number of invocations), rx_start (the reset state is the "
              "start state of the next packet: no residue). The proof attempt exposed a genuine defect (PayloadReady lost when it is raised "
              "between the flag read and a FIFO read that empties the FIFO; repaired in /repo, 2b81b62). Not proved: overflow when the host is "
              "too slow (outside the hypothesis), buffers smaller than the payload (C08), back-to-back packets beyond the reset-state argument.",
@@ -152,9 +152,12 @@ CLAIMS = {
              "C11_no_delivery_after_failed_transfer (one handler invocation, LoRa/FSK/OOK, any flags and packet: the receive callback is never "
              "invoked after any of its transfers failed), C11_fsk_header_is_transactional and C11_lora_read_is_transactional (a failure while "
              "the per-packet state is being established leaves the handle exactly as it was), C11_cache_after_failures (C01). "
-             "'Subsequent packets are received and transmitted correctly' is decided by scripts that fail one or two transfers at each index of "
-             "the packet paths (LoRa and FSK/OOK reception, FSK/OOK transmission) and of each API call and then run fault-free traffic against "
-             "the delivery monitors; two defects found this way were repaired (see known_findings.json).",
+             "'Subsequent packets are received and transmitted correctly': for FSK/OOK reception and transmission this is part of C03_session and "
+             "C04_session, whose environments let any transfer fail (reception: except the handler's own recovery write) - the invariants from "
+             "which the next bytes and the next packet are handled correctly survive every failure; for LoRa the handlers are stateless between "
+             "packets apart from the restored length. In addition scripts fail one or two transfers at each index of the packet paths and of "
+             "each API call and then run fault-free traffic against the delivery monitors; two defects found this way were repaired "
+             "(see known_findings.json). Not covered by a theorem: two consecutive failures of which the second is the recovery write.",
         technique="Lean 4 structural theorems over all answers (values and failures) of chip and bus + fault injection at each transfer index with recovery traffic",
         design="7 C11"),
     'C12': dict(
